@@ -319,6 +319,7 @@ func errClass(err error) string {
 		{"cannot modify", "fixed-payload"},
 		{"no validators eligible", "no-relayer"},
 		{"no assignable validators", "no-assignable-relayer"},
+		{"invalid sender", "invalid-sender-claim"},
 		{"missing payload", "contract-empty-payload"},
 		{"payload bytes is empty", "contract-empty-payload"},
 		{"unexpected end of JSON", "empty-json-payload"},
@@ -430,7 +431,7 @@ func run(r *report.Run, shard, nshards int, replayFile string) {
 	e.router = libwasm.NewRouterMessageDecorator(log.NewNopLogger(), schedbindings.NewLegacyMessenger(sk), schedbindings.NewMessenger(sk, srv), nil, nil)(nil)
 
 	r.Rule = "BFS over Create(owner in {U1,U2}, id in {j1,j2}, modifiable?, variant in {P1 on eth-main, P2 on bnb-main}) incl. duplicates, owner-field spoof, MEV-flagged and contract-created jobs; " +
-		"Exec(account in {U1,U2}, id in {j1,j2,unknown}, payload in {nil, empty, Q}); ExecContract(contract in {32-byte via scheduler_msg, 20-byte via legacy message}, id, payload in {empty, Q}); " +
+		"Exec(account in {U1,U2}, id in {j1,j2,unknown}, payload in {nil, empty, Q}); ExecContract(contract in {32-byte via scheduler_msg, 20-byte via legacy message}, id, payload in {empty, Q}) plus, for payload Q on j1/j2, the message's `sender` claim in {absent, contract's own address, U1's address, garbage} for both message forms — the requester stays the dispatching contract; " +
 		"NoRelayer / RestoreRelayer (fee records of eth-main); NewSnapshot (valset rotation => just-in-time UpdateValset, toggles the MEV trait). " +
 		"Transactions are signed, wire-encoded, decoded and run through the real ante chain and MsgServiceRouter; contract requests run through the real libwasm router and scheduler bindings inside a sub-context as wasmd does. " +
 		"A state is distinct by (scheduler, consensus, treasury, valset stores, ghost)."
@@ -1005,35 +1006,72 @@ func (e *env) ops(n *explore.Node) []explore.Op {
 			}
 		}
 	}
-	// Exec by contracts
+	// Exec by contracts. The binding message's `sender` field is a CLAIM of the
+	// contract; the requester is the dispatching contract whatever it claims.
+	// Default sender: the contract itself (scheduler_msg) / field absent (legacy);
+	// the other claims {absent, own, U1, garbage} are explored with payload Q on j1, j2.
 	csups := []supplied{{Name: "empty", Bytes: []byte{}}, {Name: "Q", Bytes: qBytes}}
+	type claim struct {
+		Name string
+		Set  bool
+		Val  string
+	}
+	execContract := func(c contract, id string, sup supplied, cl *claim) explore.Op {
+		label := fmt.Sprintf("ExecContract(%s,%s,%s)", c.Name, id, sup.Name)
+		ckind := "exec-contract"
+		if cl != nil {
+			label = fmt.Sprintf("ExecContract(%s,%s,%s,sender=%s)", c.Name, id, sup.Name, cl.Name)
+			ckind = "exec-contract[sender=" + cl.Name + "]"
+		}
+		return explore.Op{Label: label, Do: func(ctx *sdk.Context, gg explore.Ghost) *explore.Fail {
+			g := gg.(*ghost)
+			var bz []byte
+			switch {
+			case cl == nil && c.Legacy:
+				bz, _ = json.Marshal(map[string]interface{}{"job_id": id, "payload": sup.Bytes})
+			case cl == nil:
+				bz, _ = json.Marshal(libwasm.CustomMessage{Scheduler: &bindingstypes.Message{ExecuteJob: &bindingstypes.ExecuteJob{JobID: id, Sender: c.Addr.String(), Payload: sup.Bytes}}})
+			default:
+				inner := map[string]interface{}{"job_id": id, "payload": sup.Bytes}
+				if cl.Set {
+					inner["sender"] = cl.Val
+				}
+				if c.Legacy {
+					bz, _ = json.Marshal(inner)
+				} else {
+					bz, _ = json.Marshal(map[string]interface{}{"scheduler_msg": map[string]interface{}{"execute_job": inner}})
+				}
+			}
+			before, f := e.before(*ctx, g)
+			if f != nil {
+				return f
+			}
+			if f := e.handlerProbe(*ctx, "exec-contract", before, func(cc sdk.Context) error {
+				_, _, _, err := e.router.DispatchMsg(cc, c.Addr, "", wasmvmtypes.CosmosMsg{Custom: bz})
+				return err
+			}); f != nil {
+				return f
+			}
+			dBefore := e.digBefore(*ctx, g)
+			err := e.dispatch(*ctx, c.Addr, bz)
+			e.countReq(g, ckind, id, sup, err)
+			return e.requestDone(*ctx, g, "exec-contract", id, c.Addr, c.Addr, c.Addr, sup, err == nil, before, dBefore)
+		}}
+	}
 	for _, c := range e.contracts {
 		for _, id := range []string{"j1", "j2", "ghost9"} {
 			for _, sup := range csups {
-				c, id, sup := c, id, sup
-				ops = append(ops, explore.Op{Label: fmt.Sprintf("ExecContract(%s,%s,%s)", c.Name, id, sup.Name), Do: func(ctx *sdk.Context, gg explore.Ghost) *explore.Fail {
-					g := gg.(*ghost)
-					var bz []byte
-					if c.Legacy {
-						bz, _ = json.Marshal(map[string]interface{}{"job_id": id, "payload": sup.Bytes})
-					} else {
-						bz, _ = json.Marshal(libwasm.CustomMessage{Scheduler: &bindingstypes.Message{ExecuteJob: &bindingstypes.ExecuteJob{JobID: id, Sender: c.Addr.String(), Payload: sup.Bytes}}})
-					}
-					before, f := e.before(*ctx, g)
-					if f != nil {
-						return f
-					}
-					if f := e.handlerProbe(*ctx, "exec-contract", before, func(cc sdk.Context) error {
-						_, _, _, err := e.router.DispatchMsg(cc, c.Addr, "", wasmvmtypes.CosmosMsg{Custom: bz})
-						return err
-					}); f != nil {
-						return f
-					}
-					dBefore := e.digBefore(*ctx, g)
-					err := e.dispatch(*ctx, c.Addr, bz)
-					e.countReq(g, "exec-contract", id, sup, err)
-					return e.requestDone(*ctx, g, "exec-contract", id, c.Addr, c.Addr, c.Addr, sup, err == nil, before, dBefore)
-				}})
+				ops = append(ops, execContract(c, id, sup, nil))
+			}
+		}
+		claims := []claim{{Name: "absent"}, {Name: "own", Set: true, Val: c.Addr.String()}, {Name: "U1", Set: true, Val: e.users[0].Addr.String()}, {Name: "garbage", Set: true, Val: "not-a-bech32-address"}}
+		for i := range claims {
+			cl := &claims[i]
+			if (c.Legacy && cl.Name == "absent") || (!c.Legacy && cl.Name == "own") {
+				continue // that is the default message above
+			}
+			for _, id := range []string{"j1", "j2"} {
+				ops = append(ops, execContract(c, id, csups[1], cl))
 			}
 		}
 	}
